@@ -24,6 +24,7 @@ def classOutcome (name : String) : Out :=
   | "create-zero-partitions" => (create 1 ⟨2, 0, 1, 0⟩).1
   | "create-zero-replication" => (create 1 ⟨2, 1, 0, 0⟩).1
   | "create-unknown-space" => (create 1 ⟨2, 1, 1, 7⟩).1
+  | "create-negative-space" => (createInt 1 2 1 1 (-1)).1
   | "search-k-zero" => search ds 2 0 20 32
   | "search-k-max" | "search-partitions-k-max" => search ds 2 4294967295 20 32
   | "non-finite-vectors" => Validate.insert ds 16 2
